@@ -860,7 +860,9 @@ fn c20_bang_vocabulary() {
             assert!(false, "C20: every bang operator offered after `!` is lexed as a bang operator");
         }
     }
-    if lexed && !offered {
+    // offered in EVERY `!` context the dump exercises (end of a value, in front of letters, nested)
+    let offered_everywhere = comp::in_bang_all(w);
+    if lexed && !offered_everywhere {
         if comp::in_kf_c20_bang_lexed_not_offered(w) {
             kani::cover!(true, "KF:C20_BANG_LEXED_NOT_OFFERED");
         } else {
